@@ -43,11 +43,31 @@ func c09Universe() []univ.Val {
 	add("float32_1_5", ref.Float(1.5), float32(1.5))
 	add("float32_m1", ref.Float(-1), float32(-1))
 	add("f2e53", ref.Float(9007199254740992), float64(9007199254740992))
+	// floats on the edges of the integer ranges, and the integers next to them
+	add("f2e63", ref.Float(9223372036854775808), float64(9223372036854775808))
+	add("fm2e63", ref.Float(-9223372036854775808), float64(-9223372036854775808))
+	add("f2e64", ref.Float(18446744073709551616), float64(18446744073709551616))
+	add("f2e31", ref.Float(2147483648), float64(2147483648))
+	add("f32_2e24p2", ref.Float(16777218), float32(16777218))
+	add("u64_2e63", ref.Uint(1<<63), uint64(1)<<63)
+	add("i2e24p1", ref.Int(16777217), 16777217)
+	add("f1e18", ref.Float(1e18), 1e18)
+	add("i1e18p1", ref.Int(1000000000000000001), 1000000000000000001)
 	add("l_12_typed", univ.L(ref.Int(1), ref.Int(2)), []int{1, 2})
 	add("l_12", univ.L(ref.Int(1), ref.Int(2)), []any{1, 2})
 	add("l_12f", univ.L(ref.Float(1), ref.Float(2)), []float64{1, 2})
 	add("l_nest2", univ.L(univ.L(ref.Int(1)), univ.L(ref.Int(2))), [][]int{{1}, {2}})
 	add("l_s_ab", univ.L("a", "b"), []string{"a", "b"})
+	// Drops behave as their ToLiquid value
+	add("drop_1", ref.Int(1), univ.Drop{V: 1})
+	add("drop_1_5", ref.Float(1.5), univ.Drop{V: 1.5})
+	add("drop_a", "a", univ.Drop{V: "a"})
+	add("drop_nil", nil, univ.Drop{V: nil})
+	add("drop_false", false, univ.Drop{V: false})
+	add("pdrop_l123", univ.L(ref.Int(1), ref.Int(2), ref.Int(3)), &univ.PDrop{V: []any{1, 2, 3}})
+	add("drop_m_a", ref.NewMap("a", ref.Int(1)), univ.Drop{V: map[string]any{"a": 1}})
+	add("l_of_drops", univ.L(ref.Int(1), "a"), []any{univ.Drop{V: 1}, &univ.PDrop{V: "a"}})
+	add("l_123_u8", univ.L(ref.Int(1), ref.Int(2), ref.Int(3)), []uint8{1, 2, 3})
 	return u
 }
 
